@@ -76,7 +76,11 @@ def main():
         os.environ["FUNSOR_TYPECHECK"] = tc
         insts = []
         for theme, p in progs:
-            for s in (scheds if chk.tier != "quick" else (rng.sample(scheds, 3) if not theme.startswith("sameop") else ["normalize", "lazy>normalize", "lazy"])):
+            if chk.tier == "quick":
+                chosen = rng.sample(scheds, 3) if not theme.startswith("sameop") else ["normalize", "lazy>normalize", "lazy"]
+            else:       # thorough: every program under 4 seeded schedules per env configuration (all 14 over the 4 configurations on average)
+                chosen = rng.sample(scheds, 4) if not theme.startswith("sameop") else ["normalize", "lazy>normalize", "lazy", "lazy_normalize_eager"]
+            for s in chosen:
                 n += 1
                 insts.append((s, theme, p, n % 13 == 0))
         chk.map("checks.c03", "worker", insts, chunksize=8, family="TCO=%s,TYPECHECK=%s" % (tco, tc))
